@@ -13,6 +13,11 @@ _md = MarkdownIt('commonmark')
 
 def _s(chars): return ''.join(chars)
 
+def _rawnorm(s):
+    """raw text without the line ends around it and without trailing lines of blanks (insignificant in the rendered HTML)"""
+    return re.sub(r'(?:\n[ \t]*)+\Z', '', s.strip('\n'))
+
+
 def _esc(s):
     return html.escape(s, quote=False).replace('"', '&quot;')        # the apostrophe is not escaped by CommonMark renderers
 
@@ -75,7 +80,7 @@ def from_model(node, tight=False, defs=None):
     t = node['t']
     if t == 'doc':
         defs = collect_defs(node)
-        return [x for k in node['kids'] for x in from_model(k, False, defs)]
+        return merge_raw([x for k in node['kids'] for x in from_model(k, False, defs)])
     if t == 'refs':
         return []
     if t == 'bq':
@@ -103,7 +108,7 @@ def from_model(node, tight=False, defs=None):
             return [('code', info.split()[0] if info.split() else '', ''.join(l + '\n' for l in body))]
         return [('code', '', ''.join(l + '\n' for l in lines))]
     if t == 'html':
-        return [('t', '\n'.join(_s(l) for l in node['txt']).strip('\n'))]
+        return [('t', _rawnorm('\n'.join(_s(l) for l in node['txt'])))]
     raise ValueError(t)
 
 def from_mdit(src):
@@ -141,11 +146,11 @@ def from_mdit(src):
         elif ty == 'hr':
             stack[-1].append(('hr',))
         elif ty == 'html_block':
-            stack[-1].append(('t', tk.content.strip('\n')))
+            stack[-1].append(('t', _rawnorm(tk.content)))
         else:
             raise ValueError(ty)
     assert len(stack) == 1
-    return stack[0]
+    return merge_raw(stack[0])
 
 class _HP(HTMLParser):
     BLOCK = {'blockquote', 'ul', 'ol', 'li', 'p', 'pre', 'h1', 'h2', 'h3', 'h4', 'h5', 'h6', 'hr'}
@@ -190,6 +195,12 @@ class _HP(HTMLParser):
             else: self.stack[-1].append(('li', kids))
         else: self.buf.append('</%s>' % tag)
     def handle_data(self, data): self.buf.append(data)
+    def flush_raw(self):
+        # hand everything still buffered (an unterminated raw construct, script / style content) on as text
+        self.clear_cdata_mode(); self.goahead(1)
+        if self.rawdata:
+            self.handle_data(self.rawdata); self.rawdata = ''
+    def textmode_code(self): return bool(self.textmode and self.meta and self.meta[-1][0] == 'pre')     # inside <pre><code>: lines are content
     def handle_comment(self, data): self.buf.append('<!--%s-->' % data)
     def handle_decl(self, decl): self.buf.append('<!%s>' % decl)
     def handle_pi(self, data): self.buf.append('<?%s>' % data)
@@ -205,13 +216,45 @@ class _HP(HTMLParser):
     def handle_charref(self, name): self.buf.append('&#%s;' % name)
     def flush_text(self):
         txt = ''.join(self.buf); self.buf = []
-        if txt.strip('\n'):
-            self.stack[-1].append(('t', txt.strip('\n')))
+        if _rawnorm(txt):
+            self.stack[-1].append(('t', _rawnorm(txt)))
+
+_RAW_OPENERS = re.compile(r'<\?|<!\[|<![A-Za-z]|<(?:script|style|textarea)', re.I)
+_STRUCT_LINE = re.compile(r'</?(?:blockquote|ul|ol|li|p|pre|h[1-6]|hr)(?:[ >/]|$)')
+
 
 def from_html(h):
-    p = _HP(); p.feed(h); p.close(); p.flush_text()
+    p = _HP()
+    if _RAW_OPENERS.search(h):
+        # raw constructs html.parser would read on to their terminator (processing instruction, declaration, marked section,
+        # script / style content): a renderer writes every structural tag at the start of a line, so such a line ends whatever
+        # raw construct is still open -- the pending input is flushed as text before the line is fed
+        for ln in h.splitlines(keepends=True):
+            if _STRUCT_LINE.match(ln) and not p.textmode_code():
+                p.flush_raw()
+            p.feed(ln)
+        p.flush_raw()
+    else:
+        p.feed(h)
+    p.close(); p.flush_text()
     assert len(p.stack) == 1, h
     return p.stack[0]
+
+def merge_raw(nodes):
+    """Neighbouring raw pieces (HTML blocks, the text of a tight item's paragraph) become one: rendered HTML cannot tell
+    `<!-- c -->` + `<div>` as two HTML blocks from one block of two lines, and the property is stated on the rendered HTML."""
+    out = []
+    for nd in nodes:
+        if nd[0] in ('bq', 'ul', 'li'):
+            nd = (nd[0], merge_raw(nd[1]))
+        elif nd[0] == 'ol':
+            nd = ('ol', nd[1], merge_raw(nd[2]))
+        if nd[0] == 't' and out and out[-1][0] == 't':
+            out[-1] = ('t', out[-1][1] + '\n' + nd[1])
+        else:
+            out.append(nd)
+    return out
+
 
 def freeze(x):
     if isinstance(x, (list, tuple)): return tuple(freeze(y) for y in x)
